@@ -11,6 +11,11 @@ CHECKS = {
          "Differential check of humphrey::krauss::wildcard_match against an independent O(n*m) reference matcher over the complete space of patterns<=6 x texts<=8 on three alphabets (1.68M pairs, exhaustive) plus random long pairs built from self-overlapping literals; both directions (no false negatives, no false positives). Exhaustive for the enumerated space, sampled beyond it.",
          "Trusts the reference DP matcher (cross-checked against a naive recursive matcher on every run) and proptest.",
          "DESIGN.md §5 C05"),
+ "C18": ("exploration",
+         "bounded-exhaustive enumeration + proptest random generation, differential against RFC reference implementations",
+         "Differential check of Humphrey's SHA-1, Base64 encode/decode, percent encode/decode and DateTime against independent reference implementations over the spaces the property names: SHA-1 every length 0..1100 x 3 contents + random to 64 KiB/1 MiB; Base64 all 1/2/3-byte inputs (2^24) and decode of all 65^4 four-symbol groups, plus random malformed strings; percent all bytes/byte pairs/short strings/%XY for every ASCII XY; dates every day 1970..9999 at 00:00:00 and 23:59:59, every second of 8 boundary days, random timestamps. Exhaustive on the enumerated spaces.",
+         "Trusts the reference implementations in harness/src/common/refs.rs, which are self-tested on every run against RFC 3174 vectors and the cached `base64` and `httpdate` crates (disagreement = exit 2).",
+         "DESIGN.md §5 C18"),
 }
 
 NOT_YET = "check not built yet (work in progress; see DESIGN.md §5 for the intended design)"
